@@ -36,6 +36,9 @@ pub fn render(decls: &[Decl], dflt: u32, entry: &str, tg: (u32, u32, u32), uses:
     RENAME_STYLE.with(|c| c.set(style));
     let (entry, ns_style) = match entry.strip_suffix("+N") { Some(e) => (e, true), None => (entry, false) };
     NS_STYLE.with(|c| c.set(ns_style));
+    // the typedef style (entry written `<name>+T`): every bound resource that is not bindless is declared through a
+    // typedef of its type, arrays through a typedef of the array type
+    let (entry, td_style) = match entry.strip_suffix("+T") { Some(e) => (e, true), None => (entry, false) };
     IS_OBJ.with(|v| *v.borrow_mut() = decls.iter().map(|d| d.kind.starts_with("o:")).collect());
     let mut s = String::from("struct S0 { uint m; };\n");
     for (i, d) in decls.iter().enumerate() {
@@ -54,7 +57,11 @@ pub fn render(decls: &[Decl], dflt: u32, entry: &str, tg: (u32, u32, u32), uses:
                 let init = if d.ss { " = StaticSampler { Filter = MIN_MAG_MIP_LINEAR; }" } else { "" };
                 let bindless = if d.arr.map(|n| n >= 16 || n == 0).unwrap_or(false) { "[[rssl::bindless]] " } else { "" };
                 if in_ns(i, d) { s += "namespace NS { "; }
-                s += &format!("{}{}{}{} {}{}{};", bindless, attr, storage, ty, gname(i, d), arr, init);
+                if td_style && bindless.is_empty() {
+                    s += &format!("typedef {} T{}{}; {}{}T{} {}{};", ty, i, arr, attr, storage, i, gname(i, d), init);
+                } else {
+                    s += &format!("{}{}{}{} {}{}{};", bindless, attr, storage, ty, gname(i, d), arr, init);
+                }
                 if in_ns(i, d) { s += " }"; }
                 s += "\n";
             }
@@ -155,7 +162,7 @@ pub fn gen_cases(seed: u64, n: usize, _thorough: bool) -> Vec<String> {
         let u = pick(&mut rng);
         let h = pick(&mut rng);
         let mode = ["all", "name", "nopipe", "one"][rng.below(4) as usize];
-        let entry: String = if rng.chance(1, 8) { "CSMAIN+R".to_string() } else if rng.chance(1, 12) { "CSMAIN+N".to_string() } else { (if rng.chance(1, 4) { "VSPS" } else if rng.chance(1, 6) { *rng.pick(&["TASKMESH", "MESH"]) } else if rng.chance(1, 3) { *rng.pick(&entries) } else { "CSMAIN" }).to_string() };
+        let entry: String = if rng.chance(1, 8) { "CSMAIN+R".to_string() } else if rng.chance(1, 10) { (if rng.chance(1, 3) { "VSPS+T" } else { "CSMAIN+T" }).to_string() } else if rng.chance(1, 12) { "CSMAIN+N".to_string() } else { (if rng.chance(1, 4) { "VSPS" } else if rng.chance(1, 6) { *rng.pick(&["TASKMESH", "MESH"]) } else if rng.chance(1, 3) { *rng.pick(&entries) } else { "CSMAIN" }).to_string() };
         let tg = (rng.range(1, 8), rng.range(1, 4), rng.range(1, 2));
         let ds: Vec<String> = decls.iter().map(|d| d.word()).collect();
         out.push(format!("{} {} {} {} {} {} {} U{} H{} {}", target, rng.below(3), mode, entry, tg.0, tg.1, tg.2, u, h, ds.join(" ")).trim_end().to_string());
